@@ -46,6 +46,8 @@ def expr_stream(rng: random.Random, tier: str, n_random: int, depth_q: int = 4, 
             out += gen.pair_patterns(g)
             out += gen.param_pairs(g)
             out += gen.twin_patterns(g)
+    if rules and set(kinds) >= set(gen.ALL):
+        out += gen.rich_shapes(rng, max(40, n_random // 3))
     maxd = depth_q if tier == "quick" else depth_t
     frags = [gen.RATIONAL, gen.RATIONAL + gen.ROOTS, kinds, kinds]
     for i in range(n_random):
@@ -68,6 +70,148 @@ def points_for(rng: random.Random, e, k: int, extra: float = 0.0) -> list[dict]:
             grid = gen.GRID + EXTREME
         pts.append(g.point(vs, grid=grid, extra=extra))
     return pts
+
+
+
+def near_special(rng: random.Random, count: int) -> list[tuple]:
+    """(expression, point) pairs whose interesting sub-result sits a hair away from a value that is
+    special for the node above it: an argument of a root next to a perfect power, of a logarithm next to
+    a power of the base or to 1, an exponent next to an integer, a huge n, an angle next to a multiple
+    of pi/2 ... - the places where a shortcut, a snap-to-integer or a tolerance would show"""
+    X, V = gen.X, gen.X.Variable
+    x, y = V("x"), V("y")
+    deltas = [1e-10, -1e-10, 2.5e-12, -3e-13, 1e-8, -1e-7, 1e-15, 0.0]
+    out = []
+    for _ in range(count):
+        d = rng.choice(deltas)
+        k = rng.choice([1, 2, 3, 5, 7, 10])
+        kind = rng.randrange(12)
+        if kind == 0:
+            n = rng.choice([2, 3, 4, 5, 6, 7, 8, 10, 11])
+            v = float(k ** n) * (1 + d)
+            if n % 2 == 1 and rng.random() < 0.4:
+                v = -v
+            e, pt = X.NthRoot(x, n), {"x": v}
+        elif kind == 1:
+            n = rng.choice([10 ** 6, 10 ** 8, 10 ** 10, 2 ** 40, 12345677])
+            e, pt = X.NthRoot(x, n), {"x": rng.choice([2.0, 0.5, 10.0, 1 + 1e-7, 123.0])}
+        elif kind == 2:
+            n = rng.choice([4, 5, 6, 7, 9])
+            c = float(k ** n)
+            e, pt = X.NthRoot(X.Add(X.Constant(c), x), n), {"x": c * d}
+        elif kind == 3:
+            b = rng.choice([2, 10, 3, 0.5, 7.0, None])
+            m = rng.choice([0, 1, 2, 3, 5, -1, -2])
+            base = math.e if b is None else b
+            v = float(base) ** m * (1 + d)
+            e = X.Logarithm(x) if b is None else X.Logarithm(x, base=b)
+            pt = {"x": v}
+        elif kind == 4:
+            b = rng.choice([2, 10, 3, 0.5, None])
+            m = rng.choice([0, 1, 2, -1, 10])
+            e = X.Exponential(x) if b is None else X.Exponential(x, base=b)
+            pt = {"x": m + d * max(1, abs(m))}
+        elif kind == 5:
+            m = rng.choice([1, 2, 3, -1, -2, 0.5, 0])
+            e, pt = X.Power(x, y), {"x": float(k) * (1 + rng.choice(deltas)) + (1 if k == 1 else 0) * 0.0, "y": m + d}
+        elif kind == 6:
+            n = rng.choice([2, 3, 10, 50, 1000, 10 ** 6])
+            e, pt = X.NthPower(x, n), {"x": rng.choice([1.0, -1.0, 2.0 if n < 1000 else 1.0]) * (1 + d)}
+        elif kind == 7:
+            f = rng.choice([X.Sine, X.Cosine])
+            e, pt = f(x), {"x": rng.choice([0, 1, 2, -1, 4, 100]) * math.pi / 2 + d}
+        elif kind == 8:
+            f = rng.choice([X.Reciprocal, lambda u: X.Divide(y, u), lambda u: X.Divide(u, y)])
+            e, pt = f(x), {"x": rng.choice([1.0, -1.0, float(k)]) * (1 + d), "y": float(k)}
+        elif kind == 9:
+            # cancellation against the special value: an error of 1e-10 becomes 100 %
+            n = rng.choice([4, 5, 6, 7])
+            e = X.Minus(X.NthRoot(x, n), X.Constant(k))
+            pt = {"x": float(k ** n) * (1 + d)}
+        elif kind == 10:
+            b = rng.choice([2, 10, 3])
+            m = rng.choice([1, 2, 3])
+            e = X.Minus(X.Logarithm(x, base=b), X.Constant(m))
+            pt = {"x": float(b ** m) * (1 + d)}
+        else:
+            n = rng.choice([3, 5, 7])
+            e = X.Multiply(X.Constant(2), X.NthRoot(X.Minus(x, y), n))
+            pt = {"x": -float(k ** n), "y": abs(d) * 1e7}
+        pt = {v: pt[v] for v in sorted(e._variable_names)}
+        out.append((e, pt))
+    return out
+
+
+
+def compensating_products(rng: random.Random, count: int) -> list[tuple]:
+    """(expression, point) pairs: products (and quotients) whose factors are wildly different in
+    magnitude but compensate each other from left to right, so that the value, every node value and
+    the partials stay well inside the double range while other groupings of the same factors (a
+    tail product, the product of every second factor) would overflow or underflow"""
+    X, V = gen.X, gen.X.Variable
+    names = ["x", "y", "z", "u"]
+    out = []
+    tries = 0
+    while len(out) < count and tries < count * 50:
+        tries += 1
+        k = rng.randint(3, 5)
+        exps = [rng.choice([-1, 1]) * rng.uniform(90, 200) if rng.random() < 0.75 else rng.uniform(-3, 3) for _ in range(k)]
+        pre = 0.0
+        ok = True
+        for a in exps:
+            pre += a
+            ok = ok and abs(pre) < 230
+        if not ok or abs(pre) > 150:
+            continue
+        # some other grouping must leave the range, else the case is an ordinary one
+        sums = [sum(exps[i:j]) for i in range(k) for j in range(i + 1, k + 1)]
+        if not any(a > 300 or a < -310 for a in sums):
+            continue
+        pt = {}
+        fs = []
+        free = names[:]
+        nconst = 0
+        for a in exps:
+            v = rng.uniform(1, 9.9) * 10.0 ** a * rng.choice([1, 1, -1])
+            if abs(a) > 50 and nconst == 0 and rng.random() < 0.5 or not free:
+                fs.append(X.Constant(v))
+                nconst += 1
+            else:
+                n = free.pop(0)
+                pt[n] = v
+                fs.append(V(n))
+        if not pt:
+            continue
+        shape = rng.randrange(5)
+        if shape == 0 or k < 4:
+            e = X.Multiply(*fs)
+        elif shape == 1:
+            e = X.Multiply(fs[0], X.Multiply(*fs[1:3]), *fs[3:])
+        elif shape == 2:
+            e = X.Add(X.Multiply(*fs), X.Constant(1.5))
+        elif shape == 3:
+            e = X.Multiply(X.Multiply(*fs[:2]), X.Multiply(*fs[2:]))
+        else:
+            e = X.Sine(X.Multiply(*fs)) if abs(pre) < 2 else X.Negation(X.Multiply(*fs))
+        out.append((e, {n: pt[n] for n in sorted(e._variable_names)}))
+    return out
+
+
+
+def hash_twin(p: dict, rng: random.Random) -> tuple[dict, dict]:
+    """(p', q): q differs from p' in one coordinate only, and where possible in a way CPython's hash
+    cannot see (hash(-1) == hash(-2), for ints and floats alike), so that a table keyed by hash(point)
+    rather than by the point confuses the two"""
+    if not p:
+        return p, p
+    k = rng.choice(sorted(p))
+    v = p[k]
+    if v in (-1, -2):
+        return p, {**p, k: type(v)(-3 - v)}
+    if rng.random() < 0.5:
+        a, b = rng.choice([(-1, -2), (-2, -1), (-1.0, -2.0), (-2.0, -1)])
+        return {**p, k: a}, {**p, k: b}
+    return p, {**p, k: v + 1}
 
 
 EXTREME = [1e-20, -1e-18, 3e-17, 1e-9, -1e-9, 1e9, 1e20, -1e20, 1e-60, 5e-17, 1e-15, 40.0, -40.0, 700.0]
